@@ -3,6 +3,8 @@ package props
 import (
 	"fmt"
 	"go/token"
+	"go/types"
+	"strings"
 
 	"golang.org/x/tools/go/ssa"
 
@@ -14,7 +16,7 @@ func init() {
 	register(&Property{
 		ID:          "C19",
 		Engines:     []string{"cfg", "lockset"},
-		Explanation: "Executors, structural part: every failed fork is undone before the next fork or return, the worker defers its decrement, and no other code decrements the running-worker counter (O1); the go statement in fork sits on the true edge of a comparison of the atomic increment's own result with the bound, and Stop saturates the counter before closing (O2); task functions are invoked only in frames that defer recover(), and a task received from the queue goes to exactly one of fork / caller (O3); the counter is atomic-only and asyncList is guarded by asyncMux (O4); Timer.Async starts its drainer only on 'list was empty' inside the append's critical section, and the drainer's exhaustion test and reset are one critical section, functions run unlocked inside a recover frame in index order (O5). Every return of fork carries the +1 its callers undo (O6).",
+		Explanation: "Executors, structural part: every failed fork is undone before the next fork or return, the worker defers its decrement, and no other code decrements the running-worker counter (O1); the go statement in fork sits on the true edge of a comparison of the atomic increment's own result with the bound, and Stop saturates the counter before closing (O2); task functions are invoked only in frames that defer recover(), and a task received from the queue goes to exactly one of fork / caller (O3); the counter is atomic-only and asyncList is guarded by asyncMux (O4); Timer.Async starts its drainer only on 'list was empty' inside the append's critical section, and the drainer's exhaustion test and reset are one critical section, functions run unlocked inside a recover frame in index order (O5). Every return of fork carries the +1 its callers undo (O6). Recover frames do not assert the panic value (O8); Async only queues (O9); IO buffers survive a panicking task (O10).",
 		NotCovered:  "exactly-once / FIFO under all interleavings, submissions racing Stop, the barrier-of-waiting-tasks behaviour itself",
 		Run:         runC19,
 	})
@@ -43,6 +45,8 @@ func runC19(c *Ctx) {
 	c.Rule("C19.O4", "E1", "TaskPool.concurrent is atomic-only; Timer.asyncList is guarded by asyncMux", 8)
 	c.Rule("C19.O5", "E4,E1-atomic", "Timer.Async hand-over: head decided in the append's critical section; drainer exhaustion+reset atomic, functions run unlocked in a recover frame, index +1", 3)
 	c.Rule("C19.O6", "E4", "fork's contract with its callers: every return of fork, true or false, is dominated by the +1 on the worker counter (the callers undo exactly one on false)", 1)
+	c.Rule("C19.O11", "E4", "tasks queued before Stop are run: the dispatcher leaves on the close channel only through a non-blocking drain of the queue (its return is reachable only behind a non-blocking select on the queue channel), because no worker may be left to take what is queued", 1)
+	c19DispatcherDrains(c)
 	c.Rule("C19.O8", "E4", "a recover frame cannot panic itself: the recovered value is never type-asserted without the comma-ok form (a non-error panic value would panic again inside the deferred function and escape the pool)", 1)
 	c.Rule("C19.O9", "E5", "Timer.Async only queues: the submitted function is appended to the async list and reaches nothing else (no AfterFunc, go or direct call), so the serial drainer is the only one that runs it", 1)
 	c.Rule("C19.O10", "E4", "an IO task cannot lose a unit of parallelism by panicking: a buffer obtained by a channel receive in IOTaskPool.Go/Call is given back in a deferred call (a sync.Pool needs no give-back)", 2)
@@ -565,4 +569,54 @@ func c19Round5(c *Ctx) {
 		}
 		c.Cond(bad == "", "C19.O10", fnKey(c.P, fn, "buffer survives a panicking task"), c.FnPos(fn), "sync.Pool, or a deferred give-back", bad)
 	}
+}
+
+// c19DispatcherDrains: O11.
+func c19DispatcherDrains(c *Ctx) {
+	nw := c.Fn("C19.O11", "taskpool.New")
+	if nw == nil {
+		return
+	}
+	var disp *ssa.Function
+	for _, g := range ir.Closures(nw) {
+		for _, b := range g.Blocks {
+			for _, in := range b.Instrs {
+				if sel, ok := in.(*ssa.Select); ok && sel.Blocking {
+					for _, st := range sel.States {
+						if st.Dir == types.RecvOnly && strings.HasSuffix(c.P.LoadedField(ir.Resolve(st.Chan)), ".chClose") {
+							disp = g
+						}
+					}
+				}
+			}
+		}
+	}
+	key := fnKey(c.P, nw, "dispatcher drains before it leaves")
+	if disp == nil {
+		c.Unres("C19.O11", key, "dispatcher goroutine (blocking select on the close channel) not found")
+		return
+	}
+	fi := c.P.Info(disp)
+	isDrain := func(in ssa.Instruction) bool {
+		sel, ok := in.(*ssa.Select)
+		if !ok || sel.Blocking {
+			return false
+		}
+		for _, st := range sel.States {
+			if st.Dir == types.RecvOnly && strings.HasSuffix(c.P.LoadedField(ir.Resolve(st.Chan)), ".chQqueue") {
+				return true
+			}
+		}
+		return false
+	}
+	bad := ""
+	if len(disp.Blocks) > 0 && len(disp.Blocks[0].Instrs) > 0 {
+		vis, _ := fi.Reach([]ssa.Instruction{disp.Blocks[0].Instrs[0]}, isDrain)
+		for in := range vis {
+			if r, ok := in.(*ssa.Return); ok {
+				bad = "the dispatcher can return at " + c.Pos(r) + " without a non-blocking drain of the queue: when Stop closes the close channel while tasks are queued and no worker is alive (a bound of 2 or less, or all workers just exited), those tasks never run"
+			}
+		}
+	}
+	c.Cond(bad == "", "C19.O11", key, c.FnPos(disp), "return only behind a non-blocking select on the queue", bad)
 }
